@@ -212,6 +212,14 @@ def run_chunk(chunk):
                 res.outcome((model.shape_str(sh), order, moves, len(vs)))
                 for v in vs:
                     res.violation(v['kind'], v['where'], v['case'], v['detail'], v['what'])
+            # the default root label as the label of inner nodes
+            vmt = model.MT(mt.sid, mt.toks, model.decorate(sh, lambda p, s: 'VROOT', lambda p, s: EDGES[sum(p) % 3]))
+            vs, moves3 = check_tree(vmt.to_json(), None)
+            res.evals += 1
+            res.nontrivial += 1 if moves3 else 0
+            res.outcome((model.shape_str(sh), 'VROOT-labels', moves3, len(vs)))
+            for v in vs:
+                res.violation(v['kind'], v['where'], v['case'], v['detail'], v['what'])
             if len(model.leaves(sh)) >= 3:
                 vs, moves2 = check_tree(mt.to_json(), None, 'punctuation_root')
                 res.evals += 1
